@@ -11,9 +11,9 @@ Monitor : a JSON-RPC reply validator written from the property text + "did it ra
 import servercases as sc
 
 REQUIRED_THEOREMS = [
-    "C02_no_raise", "C02_wellformed", "C02_sent_serialisable", "C02_form_follows_request", "C02_full_pool_raises",
+    "C02_no_raise", "C02_wellformed", "C02_sent_serialisable", "C02_form_follows_request", "C02_full_pool_raises", "C02_replaced_id",
     # companions of the extracted facts: lean/JRV/Properties/C02Gen.lean (built and audited separately)
-    "C02_gen_faultSites", "C02_gen_loadsGuarded", "C02_gen_jdumpsGuarded", "C02_gen_safeJdumpsGuarded",
+    "C02_gen_faultSites", "C02_gen_loadsGuarded", "C02_gen_jdumpsGuarded", "C02_gen_safeJdumpsGuarded", "C02_gen_safeJdumpsIdProbe",
     "C02_gen_handlersOnlyReport",
 ]
 
@@ -25,13 +25,19 @@ RULE = ("request bodies: member alphabet (jsonrpc/id/method/params absent or of 
         "exception class with no/many/non-JSON arguments and texts up to 5000 characters, raised at frame depth 0/1/2/3, "
         "builtins/partials/callable objects/decorated functions, attributes bound to None), unregistered variants of "
         "registered names, batches of 64/257/1000 entries, escaped lone surrogates in ids/params/method names (also over "
-        "do_POST), results the JSON library rejects; numbers overflowing a double are run but not judged; both server versions; "
+        "do_POST), results the JSON library rejects; values the class translator builds from ~50 builtin / standard-library "
+        "types (bytes, bytearray, complex, sets, tuples, range, Decimal, Fraction, date/time types, UUID, deque, an integer "
+        "beyond the int/str limit, ...) as id / argument / params / method / jsonrpc / extra member / batch entry / whole body "
+        "through every response path (class:translated/...), ids that are arrays / objects (class:structid/...), a sample of the "
+        "RFC 8259 productions of harness/servercases_ext.py (class:malformed/..., class:wellformed/...) with the text-layer "
+        "correspondence (model verdict = real parser = RFC recogniser on every body); "
+        "numbers overflowing a double are run but not judged; both server versions; "
         "thorough: 9^4 member product x 2 versions, every truncation and 3 corruptions per position, all batches <= 3 over 7 "
         "entry kinds; distinct_nontrivial = distinct (generator, version, translation, pool, reply outcome class, parse outcome)")
 
 
 def run(ctx):
-    em = {"single": 1, "batch": 0.6, "damaged": 1.5, "descriptor": 1.2, "noise": 1.5, "pool": 0.4, "randreg": 0.5, "post": 0.25,
+    em = {"translated": 1, "structid": 0.5, "malformed": 0.15, "textlayer": True, "single": 1, "batch": 0.6, "damaged": 1.5, "descriptor": 1.2, "noise": 1.5, "pool": 0.4, "randreg": 0.5, "post": 0.25,
           "exhaustive_single": True, "exhaustive_damage": True, "exhaustive_batch": True}
     sc.standard_run(ctx, "C02", MONITORS, sc.proj_shape, em, RULE)
 
